@@ -116,6 +116,9 @@ def run(ctx):
                       "watch_values -- Parameter.__set__ evaluates the reference before it validates, so a watcher registered there survives a rejected assignment", floor=1)
     ctx.rule("R02.u", "update model: Parameters._update interpreted abstractly (entry batching flag x key orders incl. an Event key x a rejected or unknown key at every position x a value identical to the current one, 60 cases): flag restored, flush exactly once iff outermost and after the restore, keys applied in order up to the failing one, Event mode and reset, complete previous-values mapping", floor=1)
     evaluation_registers_nothing(ctx, "R02.v")
+    ctx.rule("R02.z", "no rejection after the one validator that may extend the Parameter: in Parameter.__set__ no raise is reachable (normal edges of the CFG) after self._validate(val) as "
+                      "long as Selector._ensure_value_is_in_objects appends the offered value (check_on_set=False)", floor=1)
+    no_rejection_after_a_validator_with_effects(ctx, "R02.z")
     ctx.not_decided += ["that callees are effect-free before their own raises (Composite._post_setter assigns constituents one by one)",
                         "equality of the complete observable state before/after (needs execution)"]
     ctx.assumptions.append("frozen exclusion: the scheduling done inside _resolve_ref for coroutine references (there is no current value to reject)")
@@ -413,3 +416,29 @@ def _enclosing_fors(fnode, target):
         return False
     visit(fnode, [])
     return out
+
+
+def no_rejection_after_a_validator_with_effects(ctx, rule):
+    """The one validator that is ALLOWED to change the Parameter -- Selector._ensure_value_is_in_objects, which extends
+    `objects` with a value offered to a check_on_set=False selector (the frozen exclusion of R02.y) -- makes the ORDER of
+    the tests in Parameter.__set__ matter: a `raise` that can still be reached after `self._validate(val)` (the
+    constant / read-only rejection) refuses the assignment when the objects were already extended."""
+    f = ctx.repo.func("param.parameterized.Parameter.__set__")
+    cfg = ctx.facts.cfg(f)
+    vals = [n for n in cfg.live_nodes() if n.kind == "stmt" and n.ast is not None and any(
+        isinstance(c, ast.Call) and isinstance(c.func, ast.Attribute) and c.func.attr == "_validate" and isinstance(c.func.value, ast.Name) and c.func.value.id == f.params[0] for c in ast.walk(n.ast))]
+    ctx.require(vals, "Parameter.__set__ no longer calls self._validate")
+    # does a validator with effects still exist?
+    sel = ctx.hier.resolve("param.parameters.Selector", "_ensure_value_is_in_objects")
+    if sel is None or not any(isinstance(c, ast.Call) and isinstance(c.func, ast.Attribute) and c.func.attr in ("append", "extend", "insert") for c in ast.walk(sel.node)):
+        ctx.ok(rule, f, vals[0], "no validator extends the Parameter any more: the order of validation and rejection does not matter")
+        return
+    after = cfg.reachable_from(vals, labels={"n", "t", "f"})
+    raises = [n for n in after if n.kind == "stmt" and isinstance(n.ast, ast.Raise)]
+    if raises:
+        r = sorted(raises, key=lambda n: n.lineno)[0]
+        ctx.fail(rule, f, r, "`%s` can still be reached after self._validate(val) ran: for a Selector with check_on_set=False the validator has already appended the offered value to `objects` "
+                             "when the constant / read-only test refuses the assignment -- the assignment raises, yet the Parameter (the objects it accepts, its schema, get_range()) has changed" % norm(r.ast)[:80],
+                 key=f.qualname + "::rejection-after-extending-validator", input="s = Selector(objects=[1, 2], check_on_set=False, constant=True); p.s = 99 -> TypeError, p.param.s.objects == [1, 2, 99]")
+    else:
+        ctx.ok(rule, f, vals[0], "no raise statement of Parameter.__set__ is reachable after self._validate(val): a value the unchecked-Selector validator appended is never refused afterwards")
